@@ -3,8 +3,11 @@ package main
 import (
 	"fmt"
 	"sort"
+	"strconv"
 	"strings"
 	"sync"
+
+	"golang.org/x/tools/go/ssa"
 )
 
 // ---------------------------------------------------------------------------------------------
@@ -22,7 +25,7 @@ func (c *Ctx) reuseRun() map[string]*simpleVerdict {
 	if reuseMemo != nil {
 		return reuseMemo
 	}
-	res := map[string]*simpleVerdict{"parser": {}, "calculator": {}, "template": {}}
+	res := map[string]*simpleVerdict{"parser": {}, "calculator": {}, "template": {}, "calculator-real": {}}
 	note := func(k, bad, undec string) {
 		v := res[k]
 		v.runs++
@@ -170,6 +173,19 @@ func (c *Ctx) reuseRun() map[string]*simpleVerdict {
 			}
 		}
 	}()
+	// ---- calculator with its own functions and operations: values, repeated and after other expressions ----
+	for part := 0; part < reuseRealParts; part++ {
+		part := part
+		wg.Add(1)
+		go func() {
+			defer wg.Done()
+			c.reuseRealCalculator(part, func(bad, undec string) {
+				mu.Lock()
+				note("calculator-real", bad, undec)
+				mu.Unlock()
+			})
+		}()
+	}
 	// ---- template: template text + variables -> rendering / error ---------------------------------
 	wg.Add(1)
 	go func() {
@@ -284,14 +300,266 @@ func (c *Ctx) reuseRun() map[string]*simpleVerdict {
 	return res
 }
 
+// ---- the calculator as shipped: default functions, type-unsafe operations, default variables ----------
+//
+// C05 compares values "under the same variable values": one calculator holds the default variables
+// x, y (Integer), d (Double) and s (String); an expression is set once and evaluated three times, then
+// expressions reading the same variables are set and evaluated on the same instance. Every answer must
+// equal the answer of a freshly constructed calculator holding the original values. The expressions:
+// every default function of the statement with its first arguments counts, the first argument a
+// numeric or string literal, a variable, or a computed value, the others literals, variables or
+// computed values; every binary and unary operator over literals and variables.
+
+const reuseRealParts = 3
+
+type reuseVar struct {
+	name, typ string
+	val       mv
+}
+
+var reuseVars = []reuseVar{{"x", "Integer", int64(2)}, {"y", "Integer", int64(3)}, {"d", "Double", float64(0.5)}, {"s", "String", "ab"}}
+
+func (c *Ctx) reuseRealCalculator(part int, note func(bad, undec string)) {
+	m := newMach(c)
+	m.maxSteps = 3000000
+	m.external = decimalNumerals
+	cctor := c.MustFunc(pkgCalc, "", "NewExpressionCalculator")
+	ct := resultType(cctor)
+	newVar := c.MustFunc("calculator/variables", "", "NewVariable")
+	vtNames := c.variantTypeNames()
+	var deep func(v mv, depth int) string
+	deep = func(v mv, depth int) string {
+		if p, ok := v.(*mv); !ok || p == nil {
+			return "nil"
+		}
+		t, out := m.Call(c.MustFunc(pkgVariants, "Variant", "Type"), v)
+		k, _ := t.(int64)
+		if out.kind != "ok" {
+			return "?" + out.why
+		}
+		if vtNames[k] == "Array" && depth < 3 {
+			a, _ := m.Call(c.MustFunc(pkgVariants, "Variant", "AsArray"), v)
+			var ps []string
+			if sl, ok := a.(mSlice); ok {
+				for _, e := range sl.arr {
+					ps = append(ps, deep(e, depth+1))
+				}
+			}
+			return "Array [" + strings.Join(ps, ", ") + "]"
+		}
+		pl, _ := m.Call(c.MustFunc(pkgVariants, "Variant", "AsObject"), v)
+		return vtNames[k] + " " + mRender(pl)
+	}
+	fresh := func() (mv, string) {
+		calc, out := m.Call(cctor)
+		if out.kind != "ok" {
+			return nil, "NewExpressionCalculator: " + out.why
+		}
+		dv, out := callM(c, m, ct, "DefaultVariables", calc)
+		dvi, ok := dv.(mIface)
+		if out.kind != "ok" || !ok {
+			return nil, "DefaultVariables: " + out.why
+		}
+		for _, rv := range reuseVars {
+			val, o1 := m.Call(c.MustFunc(pkgVariants, "", "VariantFrom"+rv.typ), rv.val)
+			vr, o2 := m.Call(newVar, rv.name, val)
+			_, o3 := callM(c, m, dvi.t, "Add", dvi.v, mIface{t: resultType(newVar), v: vr})
+			if o1.kind != "ok" || o2.kind != "ok" || o3.kind != "ok" {
+				return nil, "default variables: " + o1.why + o2.why + o3.why
+			}
+		}
+		return calc, ""
+	}
+	// set: "" or the outcome of a failed SetExpression; eval: the rendered outcome of Evaluate
+	set := func(calc mv, e string) string {
+		m.steps = 0
+		r, out := callM(c, m, ct, "SetExpression", calc, e)
+		if out.kind != "ok" {
+			return out.kind + ": " + out.why
+		}
+		if _, isNil := r.(mNilT); !isNil {
+			return "error " + errorCode(r)
+		}
+		return ""
+	}
+	eval := func(calc mv) string {
+		m.steps = 0
+		r, out := callM(c, m, ct, "Evaluate", calc)
+		tp, ok := r.(mTuple)
+		if out.kind != "ok" || !ok || len(tp) != 2 {
+			return out.kind + ": " + out.why
+		}
+		if _, isNil := tp[1].(mNilT); !isNil {
+			return "error " + errorCode(tp[1])
+		}
+		return deep(tp[0], 0)
+	}
+	undecided := func(s string) bool { return strings.HasPrefix(s, "opaque") }
+	followUps := []string{"Array(x * 2 + y, d + 1, s + '!')"}
+	freshMemo := map[string]string{}
+	freshValue := func(e string) string {
+		if v, ok := freshMemo[e]; ok {
+			return v
+		}
+		calc, why := fresh()
+		if why != "" {
+			return "opaque: " + why
+		}
+		v := set(calc, e)
+		if v == "" {
+			v = eval(calc)
+		}
+		freshMemo[e] = v
+		return v
+	}
+	for i, e := range reuseRealExpressions(c.Tier == "thorough") {
+		if i%reuseRealParts != part {
+			continue
+		}
+		noteSample("REUSE.instances/values", e)
+		want := freshValue(e)
+		if undecided(want) {
+			// the value depends on a function of another module applied to something that is no numeral (the
+			// conversion of 'ab' to a number …): the member is outside the finite model, by construction of the family
+			continue
+		}
+		calc, why := fresh()
+		if why != "" {
+			note("", why)
+			return
+		}
+		if got := set(calc, e); got != "" {
+			if got != want {
+				note(fmt.Sprintf("SetExpression(%q) answers %s on one fresh calculator and %s on another", e, got, want), "")
+			}
+			continue
+		}
+		bad := ""
+		for n := 1; n <= 3 && bad == ""; n++ {
+			got := eval(calc)
+			switch {
+			case undecided(got):
+				note("", fmt.Sprintf("evaluation %d of %q: %s", n, e, got))
+			case got != want:
+				bad = fmt.Sprintf("one calculator with the default variables x=2, y=3, d=0.5, s=\"ab\", expression %q set once: evaluation %d gives %s; a fresh calculator with the same variable values gives %s (what was evaluated before must not matter)", e, n, got, want)
+			}
+		}
+		for _, f := range followUps {
+			if bad != "" {
+				break
+			}
+			wantF := freshValue(f)
+			got := set(calc, f)
+			if got == "" {
+				got = eval(calc)
+			}
+			switch {
+			case undecided(got) || undecided(wantF):
+				note("", fmt.Sprintf("%q after %q: %s / %s", f, e, got, wantF))
+			case got != wantF:
+				bad = fmt.Sprintf("a calculator with the default variables x=2, y=3, d=0.5, s=\"ab\" that evaluated %q three times before gives %s for %q; a fresh calculator with the same variable values gives %s", e, got, f, wantF)
+			}
+		}
+		note(bad, "")
+	}
+}
+
+// decimalNumerals gives the number converters of the commons module (another module: opaque to the
+// machine) their meaning on plain decimal numerals, so that literals in expression texts have values;
+// every other argument stays an opaque symbol.
+func decimalNumerals(m *mach, fn *ssa.Function, args []mv) (mv, bool) {
+	if fn.Signature.Recv() == nil || len(args) != 2 || !strings.HasSuffix(fnFullName(fn), "Converter."+fn.Name()) || !strings.Contains(fnFullName(fn), "commons-gox/convert.") {
+		return nil, false
+	}
+	a := args[1]
+	if i, isIface := a.(mIface); isIface {
+		a = i.v
+	}
+	s, ok := a.(string)
+	if !ok {
+		return nil, false
+	}
+	switch fn.Name() {
+	case "ToInteger", "ToLong":
+		if n, err := strconv.ParseInt(s, 10, 32); err == nil {
+			return n, true
+		}
+	case "ToFloat":
+		if f, err := strconv.ParseFloat(s, 32); err == nil && !strings.ContainsAny(s, "xXpP_nNiI") {
+			return f, true
+		}
+	case "ToDouble":
+		if f, err := strconv.ParseFloat(s, 64); err == nil && !strings.ContainsAny(s, "xXpP_nNiI") {
+			return f, true
+		}
+	}
+	return nil, false
+}
+
+// reuseRealExpressions: the family of expression texts (deterministic order).
+func reuseRealExpressions(thorough bool) []string {
+	var out []string
+	first := []string{"2", "'ab'", "x", "s", "(x + 1)"}
+	if thorough {
+		first = append(first, "2.5", "d", "(s + 'c')")
+	}
+	rest := [][]string{{"3", "1", "4", "5"}, {"y", "x", "y", "x"}, {"(y - 1)", "(x * 2)", "(y + x)", "(1 + 1)"}}
+	var names []string
+	for n := range funcArityOracle {
+		names = append(names, n)
+	}
+	sort.Strings(names)
+	for _, n := range names {
+		taken := 0
+		for _, k := range funcArityOracle[n] {
+			if taken == 2 && !thorough || taken == 4 {
+				break
+			}
+			taken++
+			if k == 0 {
+				out = append(out, n+"()")
+				continue
+			}
+			for _, f := range first {
+				for _, r := range rest {
+					args := []string{f}
+					for i := 1; i < k; i++ {
+						args = append(args, r[(i-1)%len(r)])
+					}
+					out = append(out, n+"("+strings.Join(args, ", ")+")")
+					if k == 1 {
+						break
+					}
+				}
+			}
+		}
+	}
+	for _, op := range []string{"+", "-", "*", "/", "%", "^", "AND", "OR", "XOR", "=", "<>", "<", ">", "<=", ">=", "<<", ">>", "IN", "NOT IN", "LIKE"} {
+		as, bs := []string{"6", "x", "s"}, []string{"2", "y"}
+		if thorough {
+			as, bs = append(as, "'ab'", "d"), append(bs, "s")
+		}
+		for _, a := range as {
+			for _, b := range bs {
+				out = append(out, a+" "+op+" "+b)
+			}
+		}
+	}
+	for _, a := range []string{"6", "x", "s", "d", "'ab'"} {
+		out = append(out, "-"+a, "NOT "+a, a+" IS NULL", a+" IS NOT NULL", "Array(1, x, s)["+a+"]", "Array("+a+", 7)[0]")
+	}
+	return out
+}
+
 func init() {
 	register(&Rule{ID: "REUSE.instances", Floor: 3,
-		Doc: "every ordered pair of a pool of well-formed and malformed inputs processed by one parser / one calculator (also after a failed evaluation) / one template instance on the abstract machine: the second result (program and variable names; operations, operand order and result; rendering or error code) equals what a freshly constructed instance gives",
+		Doc: "every ordered pair of a pool of well-formed and malformed inputs processed by one parser / one calculator (also after a failed evaluation) / one template instance on the abstract machine: the second result (program and variable names; operations, operand order and result; rendering or error code) equals what a freshly constructed instance gives; the calculator as shipped (default functions and operations, default variables with values): an expression evaluated three times and a later expression reading the same variables give the values of a fresh calculator",
 		Run: func(c *Ctx) []*Obligation {
 			o := newObl("REUSE.instances")
 			res := c.reuseRun()
 			o.list = append(o.list, emitSimple(c, "REUSE.instances", "parsers.ExpressionParser#reuse", c.Pos(c.MustFunc(pkgParsers, "", "NewExpressionParser").Pos()), res["parser"], "results equal a fresh instance's")...)
 			o.list = append(o.list, emitSimple(c, "REUSE.instances", "calculator.ExpressionCalculator#reuse", c.Pos(c.MustFunc(pkgCalc, "", "NewExpressionCalculator").Pos()), res["calculator"], "results equal a fresh instance's")...)
+			o.list = append(o.list, emitSimple(c, "REUSE.instances", "calculator.ExpressionCalculator#reuse-values", c.Pos(c.MustFunc(pkgCalc, "ExpressionCalculator", "Evaluate").Pos()), res["calculator-real"], "values equal a fresh instance's")...)
 			o.list = append(o.list, emitSimple(c, "REUSE.instances", "mustache.MustacheTemplate#reuse", c.Pos(c.MustFunc("mustache", "", "NewMustacheTemplate").Pos()), res["template"], "results equal a fresh instance's")...)
 			return o.list
 		}})
